@@ -2,6 +2,7 @@ import PytaskModel.Engine
 import PytaskProofs.Lemmas.Sorter
 import PytaskProofs.Lemmas.EngineOrder
 import PytaskProofs.Lemmas.GraphReach
+import PytaskProofs.Lemmas.EngineProtocol
 /-!
 Failure-containment and report lemmas for the build loop of M6 (used by C04 and C08).
 
@@ -133,6 +134,186 @@ theorem Run.origin {φ : Sess → Prop} {ψ : Sess → TaskSpec → Prop}
       · exact Or.inl h0
       · exact Or.inr ⟨t, [], ts, so, s, spec, ⟨rfl, Run.nil _ _, h1, h2, h5, htail⟩, h0⟩
     · exact Or.inr ⟨x, t :: pre, post, so1, s1, spec1, PickAt.cons h1 h2 h3 h4 h5 hpa, hψ⟩
+
+/-! ### one protocol: reports, marks, log -/
+
+theorem protocol_reports (s : Sess) (spec : TaskSpec) :
+    (protocol F P g cfg s spec).reports = s.reports ++ [(spec.id, outc (runPhases F P g cfg s spec).1)] ∨
+    ((runPhases F P g cfg s spec).1 = .none ∧ (protocol F P g cfg s spec).reports = s.reports ∧
+      (protocol F P g cfg s spec).crashed = true) := by
+  unfold protocol
+  have hf := (runPhases_frame (F := F) (P := P) (g := g) (cfg := cfg) s spec).2.2.2.2.2.2.2
+  rcases processReport_reports (P := P) (g := g) (cfg := cfg) (runPhases F P g cfg s spec).2 spec (runPhases F P g cfg s spec).1 with h | h
+  · left; rw [h.1, hf]
+  · right; exact ⟨h.1, by rw [h.2.1, hf], h.2.2.1⟩
+
+theorem protocol_failMarks (s : Sess) (spec : TaskSpec) :
+    (protocol F P g cfg s spec).failMarks =
+      if (runPhases F P g cfg s spec).1 = .error then s.failMarks ++ taskDesc g spec.id else s.failMarks := by
+  unfold protocol
+  rw [processReport_failMarks, (runPhases_frame (F := F) (P := P) (g := g) (cfg := cfg) s spec).2.2.1]
+
+theorem protocol_failMarks_mono (s : Sess) (spec : TaskSpec) (m : Nat) (h : m ∈ s.failMarks) :
+    m ∈ (protocol F P g cfg s spec).failMarks := by
+  rw [protocol_failMarks]; split <;> simp [h]
+
+theorem protocol_reports_prefix (s : Sess) (spec : TaskSpec) : s.reports <+: (protocol F P g cfg s spec).reports := by
+  rcases protocol_reports (F := F) (P := P) (g := g) (cfg := cfg) s spec with h | h
+  · rw [h]; exact List.prefix_append _ _
+  · rw [h.2.1]; exact List.prefix_refl _
+
+theorem protocol_log_eq (s : Sess) (spec : TaskSpec) :
+    (protocol F P g cfg s spec).log = (runPhases F P g cfg s spec).2.log := by
+  unfold protocol; simp
+
+/-! ### monotonicity along a run -/
+
+theorem Run.reports_prefix {so : Sorter} {s : Sess} {picks : List Nat} {so' : Sorter} {s' : Sess}
+    (h : Run F P g cfg so s picks so' s') : s.reports <+: s'.reports := by
+  induction h with
+  | nil => exact List.prefix_refl _
+  | cons _ _ _ _ _ _ ih => exact List.IsPrefix.trans (protocol_reports_prefix _ _) ih
+
+theorem Run.failMarks_mono {so : Sorter} {s : Sess} {picks : List Nat} {so' : Sorter} {s' : Sess}
+    (h : Run F P g cfg so s picks so' s') (m : Nat) (hm : m ∈ s.failMarks) : m ∈ s'.failMarks := by
+  induction h with
+  | nil => exact hm
+  | cons _ _ _ _ _ _ ih => exact ih (protocol_failMarks_mono _ _ m hm)
+
+/-- After a crash (or a stop) the loop accepts no further pick. -/
+theorem Run.of_crashed {so : Sorter} {s : Sess} {picks : List Nat} {so' : Sorter} {s' : Sess}
+    (h : Run F P g cfg so s picks so' s') (hc : s.crashed = true ∨ s.stop = true) : picks = [] ∧ s' = s := by
+  cases h with
+  | nil => exact ⟨rfl, rfl⟩
+  | cons h1 h2 _ _ _ _ => rcases hc with hc | hc <;> simp_all
+
+/-! ### where reports, log entries and fail marks come from -/
+
+theorem PickAt.id_eq {so : Sorter} {s : Sess} {picks : List Nat} {so' : Sorter} {s' : Sess} {x : Nat}
+    {pre post : List Nat} {so1 : Sorter} {s1 : Sess} {spec : TaskSpec}
+    (h : PickAt F P g cfg so s picks so' s' x pre post so1 s1 spec) : spec.id = x := find?_id h.hfind
+
+theorem report_origin {so : Sorter} {s : Sess} {picks : List Nat} {so' : Sorter} {s' : Sess}
+    (h : Run F P g cfg so s picks so' s') (x : Nat) (o : Outcome) (hm : (x, o) ∈ s'.reports) :
+    (x, o) ∈ s.reports ∨ ∃ pre post so1 s1 spec, PickAt F P g cfg so s picks so' s' x pre post so1 s1 spec ∧
+      outc (runPhases F P g cfg s1 spec).1 = o := by
+  have := Run.origin (F := F) (P := P) (g := g) (cfg := cfg) (φ := fun s => (x, o) ∈ s.reports)
+    (ψ := fun s spec => spec.id = x ∧ outc (runPhases F P g cfg s spec).1 = o) (by
+      intro s spec hφ
+      rcases protocol_reports (F := F) (P := P) (g := g) (cfg := cfg) s spec with h | h
+      · rw [h] at hφ
+        rcases List.mem_append.1 hφ with h0 | h0
+        · exact Or.inl h0
+        · simp only [List.mem_singleton, Prod.mk.injEq] at h0
+          exact Or.inr ⟨h0.1.symm, h0.2.symm⟩
+      · rw [h.2.1] at hφ; exact Or.inl hφ) h hm
+  rcases this with h0 | ⟨x', pre, post, so1, s1, spec, hpa, hid, ho⟩
+  · exact Or.inl h0
+  · have : x' = x := by rw [← hpa.id_eq, hid]
+    subst this
+    exact Or.inr ⟨pre, post, so1, s1, spec, hpa, ho⟩
+
+theorem log_origin {so : Sorter} {s : Sess} {picks : List Nat} {so' : Sorter} {s' : Sess}
+    (h : Run F P g cfg so s picks so' s') (x : Nat) (hm : x ∈ s'.log) :
+    x ∈ s.log ∨ ∃ pre post so1 s1 spec, PickAt F P g cfg so s picks so' s' x pre post so1 s1 spec ∧
+      (runPhases F P g cfg s1 spec).2.log = s1.log ++ [x] := by
+  have := Run.origin (F := F) (P := P) (g := g) (cfg := cfg) (φ := fun s => x ∈ s.log)
+    (ψ := fun s spec => spec.id = x ∧ (runPhases F P g cfg s spec).2.log = s.log ++ [x]) (by
+      intro s spec hφ
+      simp only [protocol_log_eq] at hφ
+      rcases runPhases_log F P g cfg s spec with h | h
+      · rw [h] at hφ; exact Or.inl hφ
+      · rw [h] at hφ
+        rcases List.mem_append.1 hφ with h0 | h0
+        · exact Or.inl h0
+        · simp only [List.mem_singleton] at h0
+          exact Or.inr ⟨h0.symm, by rw [h, h0]⟩) h hm
+  rcases this with h0 | ⟨x', pre, post, so1, s1, spec, hpa, hid, ho⟩
+  · exact Or.inl h0
+  · have : x' = x := by rw [← hpa.id_eq, hid]
+    subst this
+    exact Or.inr ⟨pre, post, so1, s1, spec, hpa, ho⟩
+
+theorem failMark_origin {so : Sorter} {s : Sess} {picks : List Nat} {so' : Sorter} {s' : Sess}
+    (h : Run F P g cfg so s picks so' s') (m : Nat) (hm : m ∈ s'.failMarks) :
+    m ∈ s.failMarks ∨ ∃ f pre post so1 s1 spec, PickAt F P g cfg so s picks so' s' f pre post so1 s1 spec ∧
+      (runPhases F P g cfg s1 spec).1 = .error ∧ m ∈ taskDesc g f := by
+  have := Run.origin (F := F) (P := P) (g := g) (cfg := cfg) (φ := fun s => m ∈ s.failMarks)
+    (ψ := fun s spec => (runPhases F P g cfg s spec).1 = .error ∧ m ∈ taskDesc g spec.id) (by
+      intro s spec hφ
+      simp only [protocol_failMarks] at hφ
+      split at hφ
+      · rename_i he
+        rcases List.mem_append.1 hφ with h0 | h0
+        · exact Or.inl h0
+        · exact Or.inr ⟨he, h0⟩
+      · exact Or.inl hφ) h hm
+  rcases this with h0 | ⟨f, pre, post, so1, s1, spec, hpa, he, hd⟩
+  · exact Or.inl h0
+  · exact Or.inr ⟨f, pre, post, so1, s1, spec, hpa, he, by rw [← hpa.id_eq]; exact hd⟩
+
+/-- The report appended at a pick is still there at the end. -/
+theorem PickAt.report {so : Sorter} {s : Sess} {picks : List Nat} {so' : Sorter} {s' : Sess} {x : Nat}
+    {pre post : List Nat} {so1 : Sorter} {s1 : Sess} {spec : TaskSpec}
+    (h : PickAt F P g cfg so s picks so' s' x pre post so1 s1 spec) :
+    (x, outc (runPhases F P g cfg s1 spec).1) ∈ s'.reports ∨
+    ((runPhases F P g cfg s1 spec).1 = .none ∧ s'.crashed = true ∧ post = []) := by
+  rcases protocol_reports (F := F) (P := P) (g := g) (cfg := cfg) s1 spec with hr | hr
+  · left
+    have hpre := h.hpost.reports_prefix
+    apply hpre.subset
+    rw [hr, h.id_eq]; simp
+  · right
+    obtain ⟨hp, hs⟩ := h.hpost.of_crashed (Or.inl hr.2.2)
+    exact ⟨hr.1, by rw [hs]; exact hr.2.2, hp⟩
+
+/-- The fail marks set at a pick are still there at the end. -/
+theorem PickAt.marks {so : Sorter} {s : Sess} {picks : List Nat} {so' : Sorter} {s' : Sess} {x : Nat}
+    {pre post : List Nat} {so1 : Sorter} {s1 : Sess} {spec : TaskSpec}
+    (h : PickAt F P g cfg so s picks so' s' x pre post so1 s1 spec)
+    (he : (runPhases F P g cfg s1 spec).1 = .error) (d : Nat) (hd : d ∈ taskDesc g x) : d ∈ s'.failMarks := by
+  apply h.hpost.failMarks_mono
+  rw [protocol_failMarks, if_pos he, h.id_eq]
+  exact List.mem_append.2 (Or.inr hd)
+
+/-! ### uniqueness of the position of a pick -/
+
+theorem append_cons_unique {x : Nat} : ∀ {pre pre' post post' : List Nat},
+    (pre ++ x :: post).Nodup → pre ++ x :: post = pre' ++ x :: post' → pre = pre' ∧ post = post'
+  | [], [], _, _, _, h => by simpa using h
+  | [], b :: pre', post, post', hn, h => by
+    simp only [List.nil_append, List.cons_append, List.cons.injEq] at h
+    obtain ⟨rfl, rfl⟩ := h
+    simp at hn
+  | a :: pre, [], post, post', hn, h => by
+    simp only [List.nil_append, List.cons_append, List.cons.injEq] at h
+    obtain ⟨rfl, rfl⟩ := h
+    simp at hn
+  | a :: pre, b :: pre', post, post', hn, h => by
+    simp only [List.cons_append, List.cons.injEq] at h
+    obtain ⟨rfl, h⟩ := h
+    have hn' : (pre ++ x :: post).Nodup := (List.nodup_cons.1 (by simpa using hn)).2
+    obtain ⟨rfl, rfl⟩ := append_cons_unique hn' h
+    exact ⟨rfl, rfl⟩
+
+theorem PickAt.unique {so : Sorter} {s : Sess} {picks : List Nat} {so' : Sorter} {s' : Sess} {x : Nat}
+    {pre post pre' post' : List Nat} {so1 so2 : Sorter} {s1 s2 : Sess} {spec spec' : TaskSpec} (hn : picks.Nodup)
+    (h : PickAt F P g cfg so s picks so' s' x pre post so1 s1 spec)
+    (h' : PickAt F P g cfg so s picks so' s' x pre' post' so2 s2 spec') :
+    pre = pre' ∧ post = post' ∧ so1 = so2 ∧ s1 = s2 ∧ spec = spec' := by
+  have e := h.hp.symm.trans h'.hp
+  obtain ⟨rfl, rfl⟩ := append_cons_unique (by rw [← h.hp]; exact hn) e
+  obtain ⟨rfl, rfl⟩ := Run.det h.hpre h'.hpre
+  have := h.hfind.symm.trans h'.hfind
+  simp only [Option.some.injEq] at this
+  exact ⟨rfl, rfl, rfl, rfl, this⟩
+
+/-- A pick of a prefix run is the same pick of the whole run. -/
+theorem PickAt.extend {so : Sorter} {s : Sess} {mid : List Nat} {som : Sorter} {sm : Sess} {x : Nat}
+    {pre post : List Nat} {so1 : Sorter} {s1 : Sess} {spec : TaskSpec} {rest : List Nat} {so' : Sorter} {s' : Sess}
+    (h : PickAt F P g cfg so s mid som sm x pre post so1 s1 spec) (hr : Run F P g cfg som sm rest so' s') :
+    PickAt F P g cfg so s (mid ++ rest) so' s' x pre (post ++ rest) so1 s1 spec :=
+  ⟨by rw [h.hp]; simp, h.hpre, h.hstop, h.hcr, h.hfind, h.hpost.append hr⟩
 
 end Engine
 end Pytask
